@@ -36,6 +36,7 @@ pub struct Acc {
     pub nontrivial_rand: HashSet<u64>,
     pub counters: std::collections::BTreeMap<String, u64>,
     pub viols: Vec<Viol>,
+    pub sig_viols: Vec<Viol>,
     pub known: Vec<String>,
     pub samples: Vec<Value>,
     pub inconclusive: u64,
@@ -56,9 +57,18 @@ impl Acc {
         }
     }
     pub fn viol(&mut self, v: Viol) {
-        if self.viols.len() < 64 {
-            self.viols.push(v);
-        } else if let Some(worst) = self.viols.iter_mut().max_by_key(|x| x.weight) {
+        // witnesses that carry a known-finding signature are kept apart so that they can never crowd
+        // out an unrelated violation
+        let signed = v.detail.get("signature").is_some();
+        self.count(if signed { "disagreements_with_signature" } else { "disagreements" }, 1);
+        self.push_viol(v);
+    }
+    fn push_viol(&mut self, v: Viol) {
+        let signed = v.detail.get("signature").is_some();
+        let list = if signed { &mut self.sig_viols } else { &mut self.viols };
+        if list.len() < 64 {
+            list.push(v);
+        } else if let Some(worst) = list.iter_mut().max_by_key(|x| x.weight) {
             if v.weight < worst.weight {
                 *worst = v;
             }
@@ -80,8 +90,8 @@ impl Acc {
                 self.count(&k, v);
             }
         }
-        for v in o.viols {
-            self.viol(v);
+        for v in o.viols.into_iter().chain(o.sig_viols) {
+            self.push_viol(v);
         }
         for k in o.known {
             if !self.known.contains(&k) {
@@ -157,20 +167,34 @@ pub fn finish(cx: &RunCtx, acc: Acc, fin: Finish) -> i32 {
     }
     cov.insert("observed".into(), Value::Object(counters));
 
-    // known findings: violations whose signature is listed are reported as KNOWN-FINDING
+    // known findings: violations whose signature is listed are reported as KNOWN-FINDING (one line per
+    // listed finding, with the number of witnesses this run saw and the smallest one)
     let known = load_known(&cx.known_path, &cx.prop);
     let mut real_viols: Vec<&Viol> = vec![];
     let mut known_lines: Vec<String> = acc.known.clone();
-    for v in &acc.viols {
+    let mut by_sig: std::collections::BTreeMap<String, (u64, &Viol)> = Default::default();
+    for v in acc.viols.iter().chain(acc.sig_viols.iter()) {
         let sig = v.detail.get("signature").and_then(|s| s.as_str()).unwrap_or("");
-        if !sig.is_empty() && known.iter().any(|k| k == sig) {
-            let line = format!("{} [{}]", v.what, sig);
-            if !known_lines.contains(&line) {
-                known_lines.push(line);
+        if !sig.is_empty() && known.iter().any(|(k, _)| k == sig) {
+            let e = by_sig.entry(sig.to_string()).or_insert((0, v));
+            e.0 += 1;
+            if v.weight < e.1.weight {
+                e.1 = v;
             }
         } else {
             real_viols.push(v);
         }
+    }
+    for (sig, (n, v)) in &by_sig {
+        let what = known.iter().find(|(k, _)| k == sig).map(|(_, w)| w.clone()).unwrap_or_default();
+        known_lines.push(format!(
+            "{} {} [witnesses kept this run: {}; smallest: {} on {:?}]",
+            sig,
+            what,
+            n,
+            v.detail.get("grammar_text").and_then(|x| x.as_str()).unwrap_or("?"),
+            v.detail.get("input").and_then(|x| x.as_str()).unwrap_or("?")
+        ));
     }
     real_viols.sort_by_key(|v| v.weight);
 
@@ -250,15 +274,15 @@ pub fn finish(cx: &RunCtx, acc: Acc, fin: Finish) -> i32 {
     code
 }
 
-/// Signatures listed as `known` for this property in the committed known-findings file.
-pub fn load_known(path: &str, prop: &str) -> Vec<String> {
+/// `(signature, what)` of the entries listed as `known` for this property in the committed known-findings file.
+pub fn load_known(path: &str, prop: &str) -> Vec<(String, String)> {
     let mut out = vec![];
     if let Ok(s) = std::fs::read_to_string(path) {
         for line in s.lines() {
             if let Ok(v) = serde_json::from_str::<Value>(line) {
                 if v["status"] == "known" && v["property"] == prop {
                     if let Some(sig) = v["signature"].as_str() {
-                        out.push(sig.to_string());
+                        out.push((sig.to_string(), v["what"].as_str().unwrap_or("").to_string()));
                     }
                 }
             }
